@@ -310,7 +310,13 @@ def run_parallax(block, ctx):
 
 
 def clauses(tier):
-    ell = [{"ellipsoid": en, "lat": lat} for en in ELLS for lat in LATS]
+    global POINTS
+    lats = LATS
+    if tier == "thorough":
+        lats = sorted(set(LATS + list(range(-90, 91, 1)) + [89.999999, -89.999999, 1e-9, -1e-9]))
+        POINTS = sorted(set(POINTS + [(lo, la) for lo in (-180, -90, -45, 0, 30, 90, 135, 179.999999)
+                                      for la in (-90, -60, -30, -1e-7, 0, 30, 60, 89.999, 90)]))
+    ell = [{"ellipsoid": en, "lat": lat} for en in ELLS for lat in lats]
     return [
         Clause("ellipsoid", chunks(ell, 8), run_ellipsoid,
                lambda c: [m for _, m, _ in check_ellipsoid(c)], floor=20),
